@@ -158,6 +158,16 @@ def run(case: dict) -> Outcome:
     s = case['s']
     pre, ipre, ipost, post, opts, tpre, tpost, forced = TEMPLATES[case['template']]
     multiline = case['multiline'] if forced is None else forced
+    # call history: the same text escaped in the other mode first, or the same call made before (a caller does both)
+    warm = case.get('warm', case.get('seed', 0) % 3 if 'seed' in case else 0)
+    try:
+        if warm == 1:
+            tokmod.escape_text(s, not multiline)
+        elif warm == 2:
+            tokmod.escape_text(s, multiline)
+            tokmod.escape_text(s, not multiline)
+    except Exception:
+        pass
     try:
         esc = tokmod.escape_text(s, multiline)
     except Exception as e:
@@ -166,6 +176,13 @@ def run(case: dict) -> Outcome:
     if not isinstance(esc, str):
         out.violate('escape-raised', 'not-str', f'escape_text({s!r}) returned {type(esc).__name__}')
         return out
+    out.stats[f'call_history_{warm}'] += 1
+    try:
+        again = tokmod.escape_text(s, multiline)
+    except Exception as e:
+        again = repr(e)
+    if again != esc:
+        out.violate('escape-history-dependent', f'ml={int(multiline)}', f'escape_text({s!r}, {multiline}) gave {esc!r} and then {again!r}')
     if _has_raw_quote(esc):
         out.violate('raw-quote', f'ml={int(multiline)}', f'escape_text({s!r}, {multiline}) = {esc!r} contains a raw double quote')
     if not multiline and ('\n' in esc or '\r' in esc):
